@@ -3,12 +3,21 @@ use crate::report::Report;
 use crate::Ctx;
 
 pub mod c01;
+pub mod c02;
+#[cfg(feature = "pure")]
 pub mod c03;
+pub mod c07;
+pub mod c08;
+pub mod c09;
 pub mod c10;
 pub mod c11;
+#[cfg(feature = "pure")]
 pub mod c13;
+#[cfg(feature = "pure")]
 pub mod c14;
+#[cfg(feature = "pure")]
 pub mod c16;
+pub mod c17;
 pub mod c18;
 pub mod common;
 pub mod smoke;
@@ -17,12 +26,21 @@ pub fn run(ctx: &Ctx) -> Option<Report> {
     Some(match ctx.prop.as_str() {
         "smoke" => smoke::run(ctx),
         "C01" => c01::run(ctx),
+        "C02" => c02::run(ctx),
+        #[cfg(feature = "pure")]
         "C03" => c03::run(ctx),
+        "C07" => c07::run(ctx),
+        "C08" => c08::run(ctx),
+        "C09" => c09::run(ctx),
         "C10" => c10::run(ctx),
         "C11" => c11::run(ctx),
+        #[cfg(feature = "pure")]
         "C13" => c13::run(ctx),
+        #[cfg(feature = "pure")]
         "C14" => c14::run(ctx),
+        #[cfg(feature = "pure")]
         "C16" => c16::run(ctx),
+        "C17" => c17::run(ctx),
         "C18" => c18::run(ctx),
         _ => return None,
     })
